@@ -80,6 +80,7 @@ type vGD struct {
 	B      *vGB  `wire:""`
 	ByName vSvc  `wire:"gC"`
 	Tool   vTool `wire:""`
+	L1     *vGL1 `wire:""`
 }
 
 func (d *vGD) Naming() string { return "zD" }
@@ -120,6 +121,31 @@ func (p *vGProc) Init() error {
 }
 func (p *vGProc) PostProcessBeforeInitialization(c any, n string) (any, error) { return c, nil }
 func (p *vGProc) PostProcessAfterInitialization(c any, n string) (any, error)  { return c, nil }
+
+// a cycle made up of lazy components only, reached from an eager one
+type vGL1 struct {
+	g  *vG
+	L2 *vGL2 `wire:""`
+}
+
+func (l *vGL1) Naming() string { return "gL1" }
+func (l *vGL1) LazyInit()      {}
+func (l *vGL1) Init() error {
+	l.g.ev = append(l.g.ev, "init:L1")
+	return nil
+}
+
+type vGL2 struct {
+	g  *vG
+	L1 *vGL1 `wire:""`
+}
+
+func (l *vGL2) Naming() string { return "gL2" }
+func (l *vGL2) LazyInit()      {}
+func (l *vGL2) Init() error {
+	l.g.ev = append(l.g.ev, "init:L2")
+	return nil
+}
 
 // a single-valued interface point with a primary winner and a lazy loser that nobody else needs
 type vTool interface{ Tool() string }
@@ -165,7 +191,22 @@ func (r *vGRunner) Run() error {
 
 func VerifAppGraph() {
 	g := &vG{}
-	failing := nd.Choose(4) // 0 none, 1 A, 2 B, 3 C
+	// FIXED=1: no fault, every optional component present, nothing pre-wired - only the registration
+	// rotation (and, in the orders run, the enumeration orders) vary
+	fixed := nd.Param("FIXED", 0) == 1
+	choose := func(n int) int {
+		if fixed {
+			return 0
+		}
+		return nd.Choose(n)
+	}
+	flag := func(dflt bool) bool {
+		if fixed {
+			return dflt
+		}
+		return nd.Bool()
+	}
+	failing := choose(4) // 0 none, 1 A, 2 B, 3 C
 	a := &vGA{g: g, fail: failing == 1}
 	b := &vGB{g: g, fail: failing == 2}
 	c := &vGC{g: g, fail: failing == 3}
@@ -173,12 +214,23 @@ func VerifAppGraph() {
 	opt := &vGOpt{g: g}
 	lazy := &vGLazy{g: g}
 	run := &vGRunner{g: g}
-	withC := nd.Bool() // C missing: required points of A and B cannot be satisfied
-	withOpt := nd.Bool()
+	withC := flag(true) // C missing: required points of A and B cannot be satisfied
+	if withC && flag(false) {
+		// the application wired this point by hand, with the registered component, before start-up
+		a.C = c
+		nd.Cover("a point wired by hand before start-up")
+	}
+	withOpt := flag(true)
 	proc := &vGProc{g: g}
 	win, lose := &vGWinner{g: g}, &vGLoser{g: g}
 	vGZInits = [2]int{}
-	comps := []any{a, b, d, lazy, run, proc, win, lose, &vGZ1{}, &vGZ2{}}
+	l1, l2 := &vGL1{g: g}, &vGL2{g: g}
+	if flag(false) {
+		// the application put a built-in default (not a component) into a by-name point before start-up
+		d.ByName = &vGC{g: g}
+		nd.Cover("a by-name point holding a built-in default before start-up")
+	}
+	comps := []any{a, b, d, lazy, run, proc, win, lose, &vGZ1{}, &vGZ2{}, l1, l2}
 	if withC {
 		comps = append(comps, c)
 	}
@@ -258,6 +310,8 @@ func VerifAppGraph() {
 	// C05: exactly-once initialisation, dependencies first, lazy only if needed
 	nd.Assert(count("init:A") == 1 && count("init:B") == 1 && count("init:C") == 1 && count("init:D") == 1, "C05: every eager component is initialised exactly once")
 	nd.Assert(count("init:Lazy") == 0, "C05: a lazy component nobody needs is not initialised")
+	nd.Assert(d.L1 == l1 && l1.L2 == l2 && l2.L1 == l1, "C02: a cycle of lazy components reached from an eager one is wired")
+	nd.Assert(count("init:L1") == 1 && count("init:L2") == 1, "C05: lazy components an eager component needs are initialised exactly once")
 	nd.Assert(d.Tool == vTool(win), "C08: the primary candidate wins a single-valued point")
 	nd.Assert(count("init:Loser") == 0 && lose.D == nil, "C05: a lazy component that merely lost the selection for a single-valued point is neither populated nor initialised")
 	nd.Assert(vGZInits[0] == 1 && vGZInits[1] == 1, "C05: every eager component is initialised exactly once, also stateless ones that may share an address")
